@@ -22,7 +22,9 @@ FLOX_NAME_PARAMS = {"dask_array_ops._tree_reduce": "name", "dask_array_ops.parti
 
 # value-neutral ingredients: (function, parameter) -> (reason, validator name)
 NEUTRAL = {
-    ("core.dask_groupby_agg", "engine"): ("equal values whichever engine computes them (C01)", None),
+    # ("core.dask_groupby_agg", "engine") was listed here as value-neutral ("equal values whichever engine computes them, C01"); that is true only up to
+    # floating-point rounding: float32 nansum of [1e8, 1, -1e8, 1] is 2 / 0 / 1 on numpy / flox / numbagg, and with one shared key the three
+    # lazy results overwrite each other when computed together (finding F56).  The engine is value-relevant.
     ("core.dask_groupby_agg", "reindex"): ("equal values whether intermediates are reindexed at the block or the combine stage (C02)", None),
     ("core.dask_groupby_agg", "fill_value"): ("dead parameter: _aggregate and _reduce_blockwise never read their fill_value", "dead_fill"),
     ("core.dask_groupby_agg", "chunks_cohorts"): ("a function of by, the chunks, expected_groups and method, all covered", "cohorts_from_covered"),
